@@ -10,6 +10,16 @@ TRUST = ("TLC explores the stated finite scopes exhaustively; the Python harness
          "enumerated and seeded cases, not for all inputs.")
 
 P = {
+    "C19": dict(
+        spec="Score, MC_ArcRemoval, Trace_ArcRemoval",
+        text="calculate_intersection_score is transcribed (leaf sets by breadth-first layers; substitution, insertion, deletion "
+             "terms) and remove_nasty_arc is a history machine whose two views are separate variables updated as the code updates "
+             "them; TLC explores every tie-break history to exhaustion on the complete order-1 graphs (and the GC-balanced order-2 "
+             "graph, thorough) for all flag combinations with ViewsAgree / WellFormed / ScoresShape / ArcStep; from every reachable "
+             "state one real call is made, and seeded call sequences on shared objects (orders 2..4) are run until the first call that "
+             "raises; every returning call is judged by the trace spec from the state before it.",
+        tech="TLC exhaustive exploration of removal histories + one real call from every reachable state + trace validation of call sequences",
+        ref="5/C19"),
     "C01": dict(
         spec="Coding, BigNat, VT, MC_Coding, Trace_Coding",
         text="Encoder and decoder are step machines (one action per loop iteration, both modes, shuffles, limb arithmetic); TLC runs "
